@@ -261,6 +261,19 @@ def judge(case, ctx):
             ctx.seen('explicit-expectation-used')
             if not isinstance(got, str) or not all(h in got for h in H3):
                 return {'kind': 'zero-row-result-differs', 'expected': 'a rendering that names the fields %r' % (H3,), 'observed': repr(got)}
+            lines = [l_ for l_ in got.split('\n') if l_.strip()]
+            if e.name in ('look', 'lookall', 'lookstr', 'lookallstr', 'repr(wrap)', 'str(wrap)'):
+                # the grid: a border, the line of names, the '=' rule - and then one line plus one '-' border per data row, of which
+                # there are none
+                shape_ = [l_[:2] for l_ in lines]
+                if shape_ != ['+-', '| ', '+=']:
+                    return {'kind': 'zero-row-result-differs', 'expected': "a grid of three lines: '+-...', '| names |', '+=...'", 'observed': repr(got)}
+            elif e.name in ('look-minimal', 'lookall-minimal'):
+                if len(lines) != 1:
+                    return {'kind': 'zero-row-result-differs', 'expected': 'the line of names and nothing else', 'observed': repr(got)}
+            elif e.name in ('see', 'see-index-header'):
+                if not all(l_.rstrip().endswith(':') for l_ in lines):
+                    return {'kind': 'zero-row-result-differs', 'expected': "one 'name:' line per field with no values after it", 'observed': repr(got)}
         return None          # other helpers: exception-freeness is the claim
     if e.kind == 'items':
         if got != []:
